@@ -12,10 +12,16 @@ package wrr
 
 import (
 	"fmt"
+	"sort"
 	"testing"
 
 	"google.golang.org/grpc/internal/verif/vk"
 )
+
+type c46cFail struct {
+	ws        []int64
+	key, desc string
+}
 
 type c46cCase struct {
 	Weights []int64 `json:"weights"`
@@ -142,6 +148,7 @@ func TestVerif_C46_WRR(t *testing.T) {
 		N = 5
 	}
 	var lists, evals, nontriv int64
+	var fails []c46cFail
 	var rec func(prefix []int64)
 	rec = func(prefix []int64) {
 		if len(prefix) > 0 {
@@ -157,7 +164,7 @@ func TestVerif_C46_WRR(t *testing.T) {
 			}
 			r.Outcome(P, "wrr: "+out)
 			if key != "" {
-				r.Violation(P, key, desc, c46cCase{Weights: ws})
+				fails = append(fails, c46cFail{ws, key, desc})
 			}
 		}
 		if len(prefix) == N {
@@ -168,6 +175,20 @@ func TestVerif_C46_WRR(t *testing.T) {
 		}
 	}
 	rec(nil)
+	// report the 3 smallest failing weight lists
+	sort.SliceStable(fails, func(i, j int) bool {
+		a, b := fails[i].ws, fails[j].ws
+		if len(a) != len(b) {
+			return len(a) < len(b)
+		}
+		return fmt.Sprint(a) < fmt.Sprint(b)
+	})
+	for i, f := range fails {
+		if i >= 3 {
+			break
+		}
+		r.Violation(P, f.key, fmt.Sprintf("%s (%d failing weight lists in total)", f.desc, len(fails)), c46cCase{Weights: f.ws})
+	}
 	r.Eval(P, evals)
 	r.NontrivialN(P, nontriv)
 	r.Set(P, "wrr_weight_lists", lists)
